@@ -379,6 +379,25 @@ func findNilableFields(p *core.Prog, pkgs ...string) []nilableField {
 					}
 				})
 				if later == nil {
+					// never assigned in the publishing function (e.g. a constructor-and-register helper that
+					// returns the new object): published unset if some other function of the package assigns it
+					var elsewhere ssa.Instruction
+					for _, g := range p.FuncsIn(func(pp string) bool { return pp == core.FnPkgPath(fn) }) {
+						if g == fn {
+							continue
+						}
+						core.EachInstr(g, func(j ssa.Instruction) {
+							if s, ok := j.(*ssa.Store); ok && elsewhere == nil && !core.IsNilConst(s.Val) {
+								if fa, ok := s.Addr.(*ssa.FieldAddr); ok && core.FieldVar(fa) == fv {
+									elsewhere = s
+								}
+							}
+						})
+					}
+					if elsewhere != nil {
+						seen[fv] = true
+						out = append(out, nilableField{named, fv, fmt.Sprintf("published at %s with %s unset; it is assigned only later, by %s at %s", p.Pos(publish.Pos()), fv.Name(), core.FuncName(elsewhere.Parent()), p.Pos(elsewhere.Pos()))})
+					}
 					continue
 				}
 				// right after allocation the field is nil: follow only the ==nil edges of tests on it
